@@ -64,6 +64,11 @@ Proof.
   - unfold n_range. rewrite map_map. apply map_ext. intro i. lia.
 Qed.
 
+Lemma sum_n_cons x l : sum_n (x :: l) = x + sum_n l. Proof. reflexivity. Qed.
+Lemma sum_n_nil : sum_n [] = 0. Proof. reflexivity. Qed.
+Lemma sum_n_app a b : sum_n (a ++ b) = sum_n a + sum_n b.
+Proof. induction a as [|x r IH]; cbn [app]; [rewrite sum_n_nil; lia | rewrite !sum_n_cons, IH; lia]. Qed.
+
 (* ================================================================ B. rechunk *)
 Lemma rechunk_concat {A} : forall sizes (l : list A) cs, rechunk sizes l = Ok cs ->
   concat cs = l /\ map len_n cs = sizes.
@@ -77,30 +82,26 @@ Qed.
 
 Lemma rechunk_ok {A} : forall sizes (l : list A), len_n l = sum_n sizes -> exists cs, rechunk sizes l = Ok cs.
 Proof.
-  induction sizes as [|s r IH]; intros l L; cbn [rechunk sum_n fold_right] in *.
-  - destruct l; [eexists; reflexivity | rewrite len_n_cons in L; lia].
-  - fold (sum_n r) in L. destruct (len_n l <? s) eqn:E; [apply N.ltb_lt in E; lia|].
+  induction sizes as [|s r IH]; intros l L; cbn [rechunk] in *.
+  - destruct l; [eexists; reflexivity | rewrite len_n_cons, sum_n_nil in L; lia].
+  - rewrite sum_n_cons in L. destruct (len_n l <? s) eqn:E; [apply N.ltb_lt in E; lia|].
     destruct (IH (skipn (N.to_nat s) l)) as [cs Hc].
     + unfold len_n in *. rewrite skipn_length. apply N.ltb_ge in E. lia.
     + rewrite Hc. eexists; reflexivity.
 Qed.
 
-Lemma sum_n_app a b : sum_n (a ++ b) = sum_n a + sum_n b.
-Proof. induction a as [|x r IH]; cbn [app sum_n fold_right]; [lia | fold (sum_n (r ++ b)); fold (sum_n r); rewrite IH; lia]. Qed.
 Lemma len_n_concat {A} (cs : list (list A)) : len_n (concat cs) = sum_n (map len_n cs).
 Proof.
-  induction cs as [|c r IH]; [reflexivity|]. cbn [concat map sum_n fold_right]. fold (sum_n (map len_n r)).
-  rewrite len_n_app, IH. reflexivity.
+  induction cs as [|c r IH]; [reflexivity|]. cbn [concat map]. rewrite sum_n_cons, len_n_app, IH. reflexivity.
 Qed.
 Lemma len_n_flat_map {A B} (f : A -> list B) l : len_n (flat_map f l) = sum_n (map (fun x => len_n (f x)) l).
 Proof.
-  induction l as [|x r IH]; [reflexivity|]. cbn [flat_map map sum_n fold_right]. fold (sum_n (map (fun x => len_n (f x)) r)).
-  rewrite len_n_app, IH. reflexivity.
+  induction l as [|x r IH]; [reflexivity|]. cbn [flat_map map]. rewrite sum_n_cons, len_n_app, IH. reflexivity.
 Qed.
 
 (* ================================================================ C. the metadata of the rows of a fragment *)
 (* (row id if stable, created, updated) as the scanner shows them *)
-Definition mrow := (option N * (N * N))%type.
+Notation mrow := (option N * (N * N))%type.
 Definition meta_at (f : Fragment) (o : N) : mrow :=
   (match fr_row_ids f with Some ids => nth_error ids (N.to_nat o) | None => None end,
    (nth (N.to_nat o) (match fr_created_at f with Some l => l | None => n_rep (phys_n f) 1 end) 1,
@@ -169,3 +170,187 @@ Qed.
 
 Lemma nth_n_rep n v i d : (i < N.to_nat n)%nat -> nth i (n_rep n v) d = v.
 Proof. unfold n_rep. intro L. apply nth_repeat_lt_length || (revert i L; induction (N.to_nat n); intros [|i] L; cbn; try lia; auto; apply IHn0; lia). Qed.
+
+(* ---------------------------------------------------------------- boolean equalities reflect equality *)
+Lemma ln_eqb_true a b : ln_eqb a b = true -> a = b.
+Proof. intro H. apply (list_eqb_eq N.eqb N.eqb_eq). exact H. Qed.
+Lemma lz_eqb_true a b : lz_eqb a b = true -> a = b.
+Proof. intro H. apply (list_eqb_eq Z.eqb Z.eqb_eq). exact H. Qed.
+Lemma option_eqb_true {A} (e : A -> A -> bool) (x y : option A) :
+  (forall a b, e a b = true -> a = b) -> option_eqb e x y = true -> x = y.
+Proof. intros He H. destruct x, y; cbn in H; try discriminate; [f_equal; apply He; exact H | reflexivity]. Qed.
+Lemma list_eqb_true {A} (e : A -> A -> bool) :
+  (forall a b, e a b = true -> a = b) -> forall x y, list_eqb e x y = true -> x = y.
+Proof.
+  intros He. induction x as [|a r IH]; intros [|b s] H; cbn [list_eqb] in H; try discriminate; [reflexivity|].
+  apply andb_true_iff in H as [H1 H2]. f_equal; [apply He; exact H1 | apply IH; exact H2].
+Qed.
+Lemma datafile_eqb_true a b : datafile_eqb a b = true -> a = b.
+Proof.
+  unfold datafile_eqb, pair_eqb. rewrite !andb_true_iff. intros [[[A B] [C1 C2]] D].
+  apply N.eqb_eq in A, C1, C2, D. apply lz_eqb_true in B. destruct a as [p1 f1 [v1 w1] r1], b as [p2 f2 [v2 w2] r2]. cbn in *. subst. reflexivity.
+Qed.
+Lemma deletion_eqb_true a b : deletion_eqb a b = true -> a = b.
+Proof.
+  unfold deletion_eqb. rewrite !andb_true_iff. intros [[A B] C]. apply N.eqb_eq in A.
+  apply (option_eqb_true N.eqb) in B; [|intros x y E; apply N.eqb_eq; exact E]. apply ln_eqb_true in C.
+  destruct a, b. cbn in *. subst. reflexivity.
+Qed.
+Lemma oln_eqb_true a b : oln_eqb a b = true -> a = b.
+Proof. apply option_eqb_true. exact ln_eqb_true. Qed.
+Lemma fragment_eqb_true a b : fragment_eqb a b = true -> a = b.
+Proof.
+  unfold fragment_eqb. rewrite !andb_true_iff. intros [[[[[[A B] C] D] E] F] G].
+  apply N.eqb_eq in A. apply (option_eqb_true N.eqb) in B; [|intros x y H; apply N.eqb_eq; exact H].
+  apply (list_eqb_true datafile_eqb datafile_eqb_true) in C.
+  apply (option_eqb_true deletion_eqb) in D; [|exact deletion_eqb_true].
+  apply oln_eqb_true in E, F, G. destruct a, b. cbn in *. subst. reflexivity.
+Qed.
+Lemma fragments_eqb_true a b : list_eqb fragment_eqb a b = true -> a = b.
+Proof. apply list_eqb_true. exact fragment_eqb_true. Qed.
+
+(* ================================================================ D. what a task returns holds the rows of its input *)
+Definition zip3 (a : list N) (b c : list N) : list mrow := combine (map Some a) (combine b c).
+
+Lemma zip3_app a1 a2 b1 b2 c1 c2 :
+  length a1 = length b1 -> length b1 = length c1 ->
+  zip3 (a1 ++ a2) (b1 ++ b2) (c1 ++ c2) = zip3 a1 b1 c1 ++ zip3 a2 b2 c2.
+Proof.
+  intros L1 L2. unfold zip3. rewrite map_app, (combine_app_eq b1 b2 c1 c2 L2), combine_app_eq; [reflexivity|].
+  rewrite map_length, combine_length. lia.
+Qed.
+
+Lemma nth_error_combine {A B} : forall (a : list A) (b : list B) i x y,
+  nth_error (combine a b) i = Some (x, y) -> nth_error a i = Some x /\ nth_error b i = Some y.
+Proof.
+  induction a as [|a0 r IH]; intros [|b0 s] i x y H; cbn [combine] in H; try (destruct i; discriminate).
+  destruct i as [|i]; cbn [nth_error] in *; [inversion H; split; reflexivity | apply IH; exact H].
+Qed.
+
+(* the shape of the version metadata of a fragment (E4) *)
+Definition shape_ok (stable : bool) (f : Fragment) : bool :=
+  if stable then implb (is_some (fr_created_at f)) (is_some (fr_updated_at f))
+  else negb (is_some (fr_created_at f)) && negb (is_some (fr_updated_at f)).
+Lemma versions_shape_forall stable l : versions_shape stable l = true <-> forall f, In f l -> shape_ok stable f = true.
+Proof. unfold versions_shape. rewrite forallb_forall. reflexivity. Qed.
+
+(* an old fragment of a table with stable row ids *)
+Lemma old_meta_stable f :
+  frag_consistent true f = true -> shape_ok true f = true ->
+  live_meta f = zip3 (sel_live f (ids_seq f)) (sel_live f (created_seq f)) (sel_live f (updated_seq f))
+  /\ length (sel_live f (ids_seq f)) = length (live_offsets f)
+  /\ length (sel_live f (created_seq f)) = length (live_offsets f)
+  /\ length (sel_live f (updated_seq f)) = length (live_offsets f).
+Proof.
+  intros C S. apply frag_consistent_iff in C as [_ [p [Ep [R [VC VU]]]]].
+  unfold row_ids_ok in R. destruct (fr_row_ids f) as [ids|] eqn:Ei; [|discriminate]. cbn [andb] in R. apply N.eqb_eq in R.
+  assert (LC : len_n (created_seq f) = p).
+  { unfold created_seq, row_count. rewrite Ei. unfold versions_ok in VC. destruct (fr_created_at f); [apply N.eqb_eq; exact VC | rewrite len_n_rep; exact R]. }
+  assert (LU : len_n (updated_seq f) = p).
+  { unfold updated_seq. unfold versions_ok in VU. destruct (fr_updated_at f); [apply N.eqb_eq; exact VU | exact LC]. }
+  assert (EC : match fr_created_at f with Some l => l | None => n_rep (phys_n f) 1 end = created_seq f).
+  { unfold created_seq, row_count, phys_n. rewrite Ei, Ep, R. reflexivity. }
+  assert (EU : match fr_updated_at f with Some l => l | None => n_rep (phys_n f) 1 end = updated_seq f).
+  { unfold updated_seq. unfold shape_ok in S. destruct (fr_updated_at f); [reflexivity|].
+    destruct (fr_created_at f) eqn:Ecr; [discriminate S|]. unfold created_seq, row_count, phys_n. rewrite Ecr, Ei, Ep, R. reflexivity. }
+  unfold ids_seq. rewrite Ei.
+  rewrite (sel_live_map f ids 0 p Ep R), (sel_live_map f (created_seq f) 1 p Ep LC), (sel_live_map f (updated_seq f) 1 p Ep LU).
+  rewrite !map_length. repeat split; try reflexivity.
+  unfold zip3. rewrite map_map, !combine_map_same. unfold live_meta. apply map_ext_in. intros o I.
+  unfold meta_at. rewrite Ei, EC, EU. f_equal.
+  pose proof (live_offsets_lt f p o Ep I) as Lo.
+  destruct (nth_error ids (N.to_nat o)) as [x|] eqn:Ex; [rewrite (nth_error_nth _ _ 0 Ex); reflexivity|].
+  apply nth_error_None in Ex. unfold len_n in R. lia.
+Qed.
+
+Lemma olds_meta_stable olds :
+  (forall f, In f olds -> frag_consistent true f = true /\ shape_ok true f = true) ->
+  flat_map live_meta olds = zip3 (flat_map (fun f => sel_live f (ids_seq f)) olds)
+                                 (flat_map (fun f => sel_live f (created_seq f)) olds)
+                                 (flat_map (fun f => sel_live f (updated_seq f)) olds).
+Proof.
+  induction olds as [|f r IH]; intro H; [reflexivity|]. cbn [flat_map].
+  destruct (H f (or_introl eq_refl)) as [C S]. destruct (old_meta_stable f C S) as [E [L1 [L2 L3]]].
+  rewrite zip3_app by congruence. rewrite E, IH; [reflexivity | intros g I; apply H; right; exact I].
+Qed.
+
+(* the fragments a task builds *)
+Lemma build_frags_meta_stable : forall sizes ids files rids crs ups,
+  map len_n rids = sizes -> map len_n crs = sizes -> map len_n ups = sizes ->
+  flat_map live_meta (build_frags true sizes ids files rids crs ups) = zip3 (concat rids) (concat crs) (concat ups).
+Proof.
+  induction sizes as [|s r IH]; intros ids files rids crs ups Lr Lc Lu.
+  - destruct rids, crs, ups; try discriminate. reflexivity.
+  - destruct rids as [|r1 rids]; [discriminate|]. destruct crs as [|c1 crs]; [discriminate|]. destruct ups as [|u1 ups]; [discriminate|].
+    cbn [map] in Lr, Lc, Lu. inversion Lr as [[Lr1 Lr2]]. inversion Lc as [[Lc1 Lc2]]. inversion Lu as [[Lu1 Lu2]].
+    cbn [build_frags flat_map hd tl concat].
+    rewrite zip3_app; [| apply len_n_length; congruence | apply len_n_length; congruence].
+    rewrite Lr2, (IH (tl ids) (tl files) rids crs ups Lr2 Lc2 Lu2). f_equal.
+    unfold live_meta.
+    match goal with |- map _ (live_offsets ?F) = _ => rewrite (live_offsets_no_deletion F (len_n r1) eq_refl eq_refl) end.
+    assert (LZ : len_n (zip3 r1 c1 u1) = len_n r1).
+    { unfold zip3. unfold len_n in *. rewrite (combine_length (map Some r1)), (combine_length c1 u1), map_length. lia. }
+    rewrite <- LZ. rewrite (map_nth_range (fun x => x) _ (zip3 r1 c1 u1)); [apply map_id|].
+    intros i [a [b c]] E. unfold zip3 in E. apply nth_error_combine in E as [E1 E2]. apply nth_error_combine in E2 as [E2 E3].
+    unfold meta_at. cbn [fr_row_ids fr_created_at fr_updated_at]. rewrite Nat2N.id.
+    rewrite (nth_error_nth _ _ 1 E2), (nth_error_nth _ _ 1 E3). f_equal.
+    rewrite nth_error_map in E1. destruct (nth_error r1 i); cbn in E1; [exact E1 | discriminate].
+Qed.
+
+(* tables without stable row ids: every row shows (no row id, 1, 1) *)
+Definition plain_meta : mrow := (None, (1, 1)).
+Lemma nth_n_rep_1 n i : nth i (n_rep n 1) 1 = 1.
+Proof. unfold n_rep. generalize (N.to_nat n). intro k. revert i. induction k as [|k IH]; intros [|i]; cbn; auto. Qed.
+Lemma plain_live_meta f :
+  fr_row_ids f = None -> fr_created_at f = None -> fr_updated_at f = None ->
+  live_meta f = map (fun _ => plain_meta) (live_offsets f).
+Proof.
+  intros A B C. unfold live_meta. apply map_ext. intro o. unfold meta_at. rewrite A, B, C, !nth_n_rep_1. reflexivity.
+Qed.
+Lemma map_const_len {A B C} (c : C) (l1 : list A) (l2 : list B) :
+  length l1 = length l2 -> map (fun _ => c) l1 = map (fun _ => c) l2.
+Proof. revert l2. induction l1 as [|x r IH]; intros [|y s] L; cbn [length] in L; try discriminate; cbn [map]; [reflexivity | f_equal; apply IH; lia]. Qed.
+Lemma plain_table_meta l :
+  (forall f, In f l -> fr_row_ids f = None /\ fr_created_at f = None /\ fr_updated_at f = None) ->
+  flat_map live_meta l = map (fun _ => plain_meta) (flat_map live_offsets l).
+Proof.
+  induction l as [|f r IH]; intro H; [reflexivity|]. cbn [flat_map]. rewrite map_app.
+  destruct (H f (or_introl eq_refl)) as [A [B C]]. rewrite (plain_live_meta f A B C), IH; [reflexivity | intros g I; apply H; right; exact I].
+Qed.
+Lemma total_live_len olds : total_live olds = len_n (flat_map live_offsets olds).
+Proof. unfold total_live, live_count. rewrite len_n_flat_map. reflexivity. Qed.
+
+Lemma build_frags_plain : forall sizes ids files,
+  (forall f, In f (build_frags false sizes ids files [] [] []) -> fr_row_ids f = None /\ fr_created_at f = None /\ fr_updated_at f = None)
+  /\ len_n (flat_map live_offsets (build_frags false sizes ids files [] [] [])) = sum_n sizes.
+Proof.
+  induction sizes as [|s r IH]; intros ids files; [split; [intros f [] | reflexivity]|].
+  cbn [build_frags hd tl flat_map]. destruct (IH (tl ids) (tl files)) as [A B]. split.
+  - intros f [E|I]; [subst f; repeat split; reflexivity | apply A; exact I].
+  - rewrite len_n_app, sum_n_cons, B. f_equal.
+    match goal with |- len_n (live_offsets ?F) = _ => rewrite (live_offsets_no_deletion F s eq_refl eq_refl) end.
+    unfold len_n. rewrite n_range_len. lia.
+Qed.
+
+Lemma frag_consistent_plain f : frag_consistent false f = true -> fr_row_ids f = None.
+Proof. intro C. apply frag_consistent_row_ids in C. destruct (fr_row_ids f); [discriminate | reflexivity]. Qed.
+
+(* THE TASK LEMMA (metadata part): the rows of the new fragments show the row ids and versions of the live rows
+   of the old ones, in order *)
+Lemma exec_task_meta stable olds sizes ids files news :
+  exec_task stable olds sizes ids files = Ok news ->
+  (forall f, In f olds -> frag_consistent stable f = true /\ shape_ok stable f = true) ->
+  sum_n sizes = total_live olds ->
+  flat_map live_meta news = flat_map live_meta olds.
+Proof.
+  intros H W S. unfold exec_task in H. destruct stable.
+  - bind_as H rids Er. bind_as H ups Eu. bind_as H crs Ec. inversion H; subst news. clear H.
+    destruct (rechunk_concat _ _ _ Er) as [Cr Lr]. destruct (rechunk_concat _ _ _ Eu) as [Cu Lu]. destruct (rechunk_concat _ _ _ Ec) as [Cc Lc].
+    rewrite (build_frags_meta_stable sizes ids files rids crs ups Lr Lc Lu), Cr, Cu, Cc.
+    symmetry. apply olds_meta_stable. exact W.
+  - inversion H; subst news. clear H. destruct (build_frags_plain sizes ids files) as [A B].
+    rewrite (plain_table_meta _ A), (plain_table_meta olds).
+    + apply map_const_len. apply len_n_length. rewrite B, S. apply total_live_len.
+    + intros f I. destruct (W f I) as [C Sh]. unfold shape_ok in Sh. apply andb_true_iff in Sh as [S1 S2].
+      repeat split; [apply frag_consistent_plain; exact C | destruct (fr_created_at f); [discriminate | reflexivity] | destruct (fr_updated_at f); [discriminate | reflexivity]].
+Qed.
